@@ -35,7 +35,12 @@ RULES = {
         (r"log_weights = log_weights\[idx\]|if not values_sorted", "fixed", "unsorted input path never exercised; now permuted (value, weight) pairs must give the same quantile"),
         (r"quantiles = np\.asarray|out=end_points|expand_dims", "equivalent", "same result for array input / one column / 1-d values"),
     ],
+    "C16": [
+        (r"np\.asarray\(", "equivalent", "the harness passes arrays; asarray is the identity on them"),
+        (r"np\.where\(log_w > log_u\)\[0\]", "equivalent", "np.where returns a 1-tuple: [-1] is [0]"),
+    ],
     "C02": [
+        (r"nlive\.copy\(\)|samples = np\.asarray", "equivalent", "the array is only read afterwards / asarray is the identity on arrays"),
         (r"self\.gradients\.append", "outside", "gradients are a plotting diagnostic"),
         (r"swap first two arguments of logaddexp", "equivalent", "logaddexp is commutative"),
         (r"increment: (Sub->Add|Add->Sub) \| info = ", "outside", "the information H belongs to the uncertainty, which C05 recomputes (C05_recompute_std_err); C02 speaks of log Z, volumes and weights"),
